@@ -205,3 +205,120 @@ def run(chk):
                     else:
                         r7.bad(cfg, key, where(b, c.blk), "is_error() == true can return without phase=Closed")
         r7.require(cfg, 3, "mechanism result sites in the engine")
+
+
+# ---------------------------------------------------------------------------
+# R5: mechanism typestate
+# ---------------------------------------------------------------------------
+def _field_assigns(body, field, adt_suffix):
+    out = []
+    for b, i, st in body.statements():
+        if st["k"] != "assign" or not st["p"]["pr"] or st["p"]["pr"][-1][0] != "field" or st["p"]["pr"][-1][2] != field:
+            continue
+        rv = st["r"]
+        var = None
+        if rv["k"] == "use":
+            org = body.value_origin(rv["o"])
+            if org[0] == "agg" and org[1]["r"].get("adt", "").endswith(adt_suffix):
+                var = org[1]["r"]["variant"]
+        elif rv["k"] == "agg" and rv.get("adt", "").endswith(adt_suffix):
+            var = rv["variant"]
+        if var:
+            out.append((b, var))
+    return out
+
+
+def r5_mechanism_typestate(chk):
+    r = chk.rule("R5", "a mechanism reports Ready only after its verification step succeeded", "T3 guarded-by",
+                 "PLAIN: the server accepts (state=ServerSendWelcome) only under HELLO && expected_username.map_or(false, ==) && expected_password.map_or(false, ==); Ready is assigned only from ServerSendWelcome / on WELCOME. CURVE: status=Ready only after process_client_initiate()? / build_client_initiate()?. Noise: status=Ready only under is_handshake_finished()")
+    for cfg, prog in chk.configs():
+        # ---- PLAIN
+        pt = prog.body("<security::plain::PlainMechanism as security::mechanism::Mechanism>::process_token")
+        if pt is not None:
+            acc = [b for b, v in _field_assigns(pt, "state", "plain::PlainState") if v == "ServerSendWelcome"]
+            key = "PLAIN server|accepts only verified credentials"
+            if len(acc) != 1:
+                r.bad(cfg, key, where(pt, acc[0] if acc else 0), "expected exactly one transition to ServerSendWelcome in process_token, found %d" % len(acc))
+            else:
+                gs = pt.guards(acc[0], select_aware=False)
+                need = {"expected_username": False, "expected_password": False}
+                # `a && b` is lowered to a bool local assigned `false` on the short-circuit edge and `b` otherwise:
+                # a guard `local == true` therefore implies its non-constant definitions and their own guards
+                calls_true = [g.atom[1] for g in gs if g.atom[0] == "call" and g.truth is True]
+                for g in gs:
+                    if g.atom[0] == "place" and g.truth is True and not g.atom[2]["pr"]:
+                        for d in pt.whole_defs(g.atom[2]["l"]):
+                            if d[0] == "call":
+                                dc = __import__("vlib.mir", fromlist=["Call"]).Call(pt, d[1], d[3])
+                                calls_true.append(dc)
+                                calls_true += [g2.atom[1] for g2 in pt.guards(d[1], select_aware=False) if g2.atom[0] == "call" and g2.truth is True]
+                            elif d[0] == "assign" and d[3]["r"]["k"] == "use" and d[3]["r"]["o"].get("int") == 1:
+                                need = {k_: False for k_ in need}
+                                calls_true = []
+                                break
+                for c in calls_true:
+                    if c.name == "map_or":
+                        recv = pt.provenance(c.args[0])
+                        dflt = pt.const_int(c.args[1]) if len(c.args) > 1 else None
+                        for f in need:
+                            if f in recv and dflt == 0:
+                                # the closure compares with the value parsed from HELLO
+                                clo = pt.value_origin(c.args[2]) if len(c.args) > 2 else ("?",)
+                                caps = " ".join(pt.provenance(o) for o in clo[1]["r"]["ops"]) if clo[0] == "agg" else ""
+                                if "parse_hello_body" in caps:
+                                    need[f] = True
+                hello = any(g.atom[0] == "call" and g.atom[1].name in ("eq",) and g.truth is True and "CMD_HELLO" in " ".join(pt.provenance(a) + (a.get("item") or "") for a in g.atom[1].args) for g in gs)
+                srv = any(g.atom[0] == "place" and g.atom[1].endswith(".is_server") and g.truth is True for g in gs)
+                if all(need.values()) and hello and srv:
+                    r.ok(cfg, key, where(pt, acc[0]), "is_server && HELLO && both map_or(false, |x| x == received)")
+                else:
+                    miss = [f for f, v in need.items() if not v] + ([] if hello else ["HELLO command test"]) + ([] if srv else ["is_server"])
+                    r.bad(cfg, key, where(pt, acc[0]), "the PLAIN server can accept a HELLO without %s: a peer with wrong (or no) credentials completes the mechanism" % ", ".join(miss))
+            for body in (pt, prog.body("<security::plain::PlainMechanism as security::mechanism::Mechanism>::produce_token")):
+                if body is None:
+                    continue
+                for b, v in _field_assigns(body, "state", "plain::PlainState"):
+                    if v != "Ready":
+                        continue
+                    key = "PLAIN|Ready assigned in %s" % body.name
+                    gs = body.guards(b, select_aware=False)
+                    st_guard = [g for g in gs if g.atom[0] == "discr" and g.atom[2].endswith("plain::PlainState")]
+                    adt = prog.facts.adts.get("security::plain::PlainState")
+                    names = [x["name"] for x in adt["variants"]] if adt else []
+                    from_state = [names[g.label] for g in st_guard if isinstance(g.label, int) and g.label < len(names)]
+                    ok = ("ServerSendWelcome" in from_state) if body.name == "produce_token" else ("ClientExpectWelcome" in from_state and any(g.atom[0] == "call" and g.atom[1].name == "eq" and g.truth is True and "CMD_WELCOME" in " ".join(body.provenance(a) + (a.get("item") or "") for a in g.atom[1].args) for g in gs))
+                    (r.ok if ok else r.bad)(cfg, key, where(body, b), *(["from %s" % from_state] if ok else ["PlainState::Ready is assigned from state(s) %s without the expected precondition (server: after ServerSendWelcome; client: on WELCOME while ClientExpectWelcome)" % from_state]))
+        # ---- CURVE
+        for nm, need_call in (("process_token", r"CurveHandshake::process_client_initiate$"), ("produce_token", r"CurveHandshake::build_client_initiate$")):
+            body = prog.body("<security::curve::mechanism::CurveMechanism as security::mechanism::Mechanism>::" + nm)
+            if body is None:
+                continue
+            for b, v in _field_assigns(body, "status", "MechanismStatus"):
+                if v != "Ready":
+                    continue
+                key = "CURVE|status=Ready in %s only after the step succeeded" % nm
+                ok = False
+                for g in body.guards(b, select_aware=False):
+                    if g.atom[0] == "discr" and g.atom[2].startswith("std::ops::ControlFlow<") and g.is_value(0) and re.search(need_call.rstrip("$"), g.atom[1]):
+                        ok = True
+                (r.ok if ok else r.bad)(cfg, key, where(body, b), *([] if ok else ["MechanismStatus::Ready is assigned without the `?`-success of %s dominating it: an INITIATE that fails verification would still complete the mechanism" % need_call.split("::")[-1].rstrip("$")]))
+        # ---- Noise
+        for body in prog.bodies.values():
+            if body.impl_self != "security::noise_xx::NoiseXxMechanism" or body.kind == "closure":
+                continue
+            for b, v in _field_assigns(body, "current_status", "MechanismStatus"):
+                if v != "Ready":
+                    continue
+                key = "NOISE_XX|status=Ready in %s under is_handshake_finished" % body.name
+                ok = any(g.atom[0] == "call" and g.atom[1].name == "is_handshake_finished" and g.truth is True for g in body.guards(b, select_aware=False))
+                (r.ok if ok else r.bad)(cfg, key, where(body, b), *([] if ok else ["Ready assigned without snow's is_handshake_finished() being true"]))
+        floor = {"default": 3, "noplain": 0, "full": 6, "full-linux": 6}.get(cfg, 0)
+        r.require(cfg, floor, "mechanism Ready/accept assignments")
+
+
+_run_base = run
+
+
+def run(chk):  # noqa: F811
+    _run_base(chk)
+    r5_mechanism_typestate(chk)
